@@ -224,7 +224,7 @@ pub fn gen_key_inner(src: &mut Src, p: &DocParams, out: &mut Vec<u8>) {
 
 /// Number literal generator (well-formed by construction). `allow_inf`: may overflow f64.
 pub fn gen_number(src: &mut Src, allow_inf: bool, out: &mut Vec<u8>) {
-    let c = src.below(24);
+    let c = src.below(26);
     let s: String = match c {
         0 => src.below(10).to_string(),
         1 => (src.u16() as i32 - 300).to_string(),
@@ -358,6 +358,21 @@ pub fn gen_number(src: &mut Src, allow_inf: bool, out: &mut Vec<u8>) {
             s.insert(pos, '.');
             s
         }
+        22 => {
+            // zero-padded exponent: the padding must not change the value
+            let zeros = *src.pick(&[1usize, 2, 3, 4, 5, 6, 7, 8, 16, 30, 300]);
+            let e = src.below(310);
+            let sign = *src.pick(&["", "+", "-"]);
+            let e = if sign == "-" { e + src.below(20) } else { e.min(300) };
+            let mant = match src.below(4) {
+                0 => "1".to_string(),
+                1 => format!("{}", 1 + src.below(9)),
+                2 => format!("{}.{}", src.below(10), src.u16()),
+                _ => format!("{}", src.u32()),
+            };
+            format!("{mant}{}{sign}{}{e}", if src.bool() { "e" } else { "E" }, "0".repeat(zeros))
+        }
+        23 => src.pick(&["0e99999", "0e-99999", "0.0e+4000", "1e-99999", "1e-0000400", "0E18446744073709551616", "1e-18446744073709551616", "0.000e-2147483649", "-0e2147483648", "1E-4294967296", "100e-00002", "1e00005", "1e000300", "25e-0002", "1.5E+00000000000000000001"]).to_string(),
         _ => src.below(100).to_string(),
     };
     out.extend_from_slice(s.as_bytes());
@@ -480,6 +495,111 @@ pub fn gen_container_doc(src: &mut Src, p: &DocParams) -> Vec<u8> {
     out.push(b',');
     gen_value(src, p, 1, &mut out);
     out.push(b']');
+    out
+}
+
+/// Small containers and scalars used by `gen_many_small`.
+pub const SMALL_ITEMS: &[&[u8]] = &[b"[]", b"{}", b"[ ]", b"{ }", b"[1]", b"{\"a\":1}", b"[[]]", b"{\"a\":[]}", b"{\"a\":{}}", b"[{}]", b"\"\"", b"\"\\n\"", b"0", b"null"];
+
+/// A shallow, well-formed document holding several hundred tiny containers (one dominant kind per
+/// document, so that per-container bookkeeping — nesting counters, scratch state — of that kind
+/// accumulates), laid out flat, as members of an object, as records, or in a few groups, and
+/// followed by ordinary containers and a scalar. Nesting depth stays <= 5.
+pub fn gen_many_small(src: &mut Src) -> Vec<u8> {
+    let n = *src.pick(&[256usize, 255, 254, 257, 260, 300, 128, 512, 64, 1030]);
+    let dominant = src.below(SMALL_ITEMS.len());
+    let mixed = src.chance(50);
+    let layout = src.below(5);
+    let sep: &[u8] = if src.chance(60) { b", " } else { b"," };
+    let item = |src: &mut Src| -> &'static [u8] {
+        if mixed && src.chance(40) {
+            SMALL_ITEMS[src.below(SMALL_ITEMS.len())]
+        } else {
+            SMALL_ITEMS[dominant]
+        }
+    };
+    let tail: &[u8] = *src.pick(&[&b"[1,{\"z\":[2]}]"[..], b"{\"t\":[true]}", b"[[[]]]", b"{}", b"[]", b"7"]);
+    let mut out = Vec::with_capacity(n * 12 + 64);
+    match layout {
+        0 => {
+            // flat array
+            out.push(b'[');
+            for i in 0..n {
+                if i > 0 {
+                    out.extend_from_slice(sep);
+                }
+                out.extend_from_slice(item(src));
+            }
+            out.extend_from_slice(sep);
+            out.extend_from_slice(tail);
+            out.extend_from_slice(b",\"end\"]");
+        }
+        1 => {
+            // members of one object
+            out.push(b'{');
+            for i in 0..n {
+                if i > 0 {
+                    out.extend_from_slice(sep);
+                }
+                out.extend_from_slice(format!("\"k{i}\":").as_bytes());
+                out.extend_from_slice(item(src));
+            }
+            out.extend_from_slice(sep);
+            out.extend_from_slice(b"\"tail\":");
+            out.extend_from_slice(tail);
+            out.extend_from_slice(b",\"end\":\"end\"}");
+        }
+        2 => {
+            // array of records
+            out.push(b'[');
+            for i in 0..n {
+                if i > 0 {
+                    out.extend_from_slice(sep);
+                }
+                out.extend_from_slice(format!("{{\"id\":{i},\"tags\":").as_bytes());
+                out.extend_from_slice(item(src));
+                out.push(b'}');
+            }
+            out.extend_from_slice(sep);
+            out.extend_from_slice(b"{\"id\":-1,\"tags\":");
+            out.extend_from_slice(tail);
+            out.extend_from_slice(b"}]");
+        }
+        3 => {
+            // a few groups
+            let groups = 2 + src.below(3);
+            out.push(b'[');
+            for g in 0..groups {
+                if g > 0 {
+                    out.extend_from_slice(sep);
+                }
+                out.push(b'[');
+                for i in 0..(n / groups + 1) {
+                    if i > 0 {
+                        out.extend_from_slice(sep);
+                    }
+                    out.extend_from_slice(item(src));
+                }
+                out.push(b']');
+            }
+            out.extend_from_slice(sep);
+            out.extend_from_slice(tail);
+            out.push(b']');
+        }
+        _ => {
+            // object whose first member holds them all, then ordinary members
+            out.extend_from_slice(b"{\"skipme\":[");
+            for i in 0..n {
+                if i > 0 {
+                    out.extend_from_slice(sep);
+                }
+                out.extend_from_slice(item(src));
+            }
+            out.extend_from_slice(b"],\"a\":");
+            out.extend_from_slice(tail);
+            out.extend_from_slice(b",\"b\":[[1],{\"c\":{}}],\"end\":1}");
+        }
+    }
     out
 }
 
